@@ -54,11 +54,12 @@ void behaves_like_fresh(const std::string &key, const Spline<Real, o> &s, const 
   if (hist == 0) {
     E.prove(key + "/evaluates-like-fresh", sym::eq(s(x2), f(x2)));
     E.prove(key + "/integrates-like-fresh", sym::eq(LinearForm{}(s), LinearForm{}(f)));
-    stats().obligations += 2;
+    stats().obligations++;
     if ((s == f) && !(s != f)) stats().discharged++; else E.fail(key + "/equals-fresh", "structure", "object differs from a fresh object with the same public state");
-    bool okfb = true;
-    if (s.getSupport().size() > 0) okfb = &s.front() == &s.getSupport().getGrid()[s.getSupport().getStartIndex()];
-    if (okfb) stats().discharged++; else E.fail(key + "/front-like-fresh", "structure", "front() depends on history");
+    if (s.getSupport().size() > 0) {
+      E.prove(key + "/front-like-fresh", sym::eq(s.front(), f.front()));
+      E.prove(key + "/back-like-fresh", sym::eq(s.back(), f.back()));
+    }
   } else {
     stats().obligations++;
     if (s.isZero() == f.isZero()) stats().discharged++; else E.fail(key + "/iszero-like-fresh", "structure", "isZero() depends on history");
